@@ -39,13 +39,16 @@ DESCRIPTION = {
         "exception out of a tap between statements. Every unfaulted analysis is compared with the same analysis alone in a fresh "
         "fork (O1) and every provider is probed for leftovers when quiescent (O2). Distinct = sha256 of the operation-level event "
         "sequence; non-trivial iff >=1 probe hit (failed run after a registration, provider reused after a failed run, overlapping "
-        "non-empty sessions, default provider used concurrently, same text under two providers)."
+        "non-empty sessions, default provider used concurrently, same text under two providers). World classes mixed in: T-SQL split-mode "
+        "runs, a 17-form dialect zoo, corpus inputs, silent mode, two project directories whose .sqlfluff give one templated text two meanings, "
+        "and the same statement text under T-SQL split mode (possibly failing before it) and under another dialect in which it reads differently."
     ),
     "real_code": [
         "sqllineage/runner.py", "sqllineage/core/metadata_provider.py (session logic)", "sqllineage/core/metadata/dummy.py",
         "sqllineage/core/holders.py", "both analyzers (sqlfluff, sqlparse)", "sqlfluff, sqlparse, networkx",
     ],
-    "stubs": ["SimProvider._get_table_columns (dict-backed, yields the baton, injects failures)", "thread scheduling (baton)"],
+    "stubs": ["SimProvider._get_table_columns (dict-backed, yields the baton, injects failures)", "thread scheduling (baton)",
+              "threading.Lock/RLock objects created by sqllineage modules are SimLock scheduling points (none exist on the unchanged tree)"],
     "assumptions": [
         "dependencies (sqlfluff, sqlparse, networkx) are atomic with respect to pre-emption",
         "crash points are call-out boundaries (provider lookups, taps) and every source line of LineageRunner._eval itself; not arbitrary bytecodes, and never inside a cleanup handler",
@@ -54,7 +57,7 @@ DESCRIPTION = {
     ],
     "required_probes": {
         "quick": ["run_failed_after_registration", "provider_reused_after_failed_run", "overlapping_nonempty_sessions",
-                  "default_provider_concurrent", "hygiene_probe", "insertion_sweep"],
+                  "default_provider_concurrent", "hygiene_probe", "insertion_sweep", "same_text_tsql_split_then_other_dialect", "project_sqlfluff_config"],
         "thorough": ["run_failed_after_registration", "provider_reused_after_failed_run", "overlapping_nonempty_sessions",
                      "default_provider_concurrent", "hygiene_probe", "same_text_two_providers", "sqlalchemy_provider", "tsql_split_mode", "silent_mode"],
     },
